@@ -80,6 +80,7 @@ class C15(E1Check):
 
     def op_list(self, cfg):
         base = std_ops(self.alpha, cfg, self.tier)
+        base.append(("insert", "P1", None, True, "db"))  # compact key prefixes: a needless rewrite would change these bytes
         have = set(base)
         self.probe_set -= have
         return base + [p for p in self.read_probes + self.write_probes + self.faults + self.mode_probes if p in self.probe_set]
